@@ -148,8 +148,8 @@ def run(tier, seed):
     else:
         paths += d2
         d3 = [(a, b, c) for a in NAMES for b in NAMES for c in NAMES]
-        paths += rng.sample(d3, 400)
-        bigN, legs = 20000, ["dev", "release"]
+        paths += rng.sample(d3, 240)
+        bigN, legs = 12000, ["dev", "release"]
     cases = []
     for path in paths:
         for shape in SHAPES:
@@ -166,7 +166,7 @@ def run(tier, seed):
     cases = core.mine(cases)
     ctx.rule = ("loops = tail-context path (every single context, %s compositions of two%s) x %d loop shapes x direct/apply call x N in {40, %d}; "
                 "stack depth and live heap sampled at every iteration by a native probe. distinct_nontrivial = distinct (shape, context path, call style) "
-                "loops whose probe series was judged" % ("all 256" if tier != "quick" else "40 sampled", ", 400 sampled of three" if tier != "quick" else "", len(SHAPES), bigN))
+                "loops whose probe series was judged" % ("all 256" if tier != "quick" else "40 sampled", ", 240 sampled of three" if tier != "quick" else "", len(SHAPES), bigN))
     ctx.assumptions = ["flat = stack drift <= 1 KiB after 3 warm-up iterations and heap slope <= 1 byte/iteration over the second half (measured: 0 on conforming loops, >= 6 KiB/iteration for a non-tail call)",
                        "'any iteration count' is sampled at the stated N only"]
     for leg in legs:
